@@ -56,6 +56,11 @@ func c09Corpus(thorough bool) []c09Input {
 			"b/b.go": pk("b", c09Types+"\n// goverter:converter\n// goverter:output:format function\n// goverter:output:file ../gen/g.go\n// goverter:output:package vx/gen\ntype C interface {\n\tConvB(source In) Out\n}\n"),
 			"c/c.go": pk("c", c09Types+"\n// goverter:converter\n// goverter:output:format function\n// goverter:output:file ../gen/g.go\n// goverter:output:package vx/gen\ntype C interface {\n\tConvC(source In) Out\n}\n"),
 		}, []string{"./a", "./b", "./c"}},
+		{"regex-extend-shared-by-two-packages", map[string]string{
+			"conv/conv.go": pk("conv", "type Name string\ntype Label string\ntype In struct{ N Name }\ntype Out struct{ N Label }\n\nfunc normalizeName(s Name) Label { return Label(\"n:\" + string(s)) }\n\n// goverter:variables\n// goverter:extend vx/conv:.*Name\nvar (\n\tConvA func(source In) Out\n)\n"),
+			"api/api.go":   pk("api", "import \"vx/conv\"\n\n// goverter:variables\n// goverter:extend vx/conv:.*Name\n// goverter:extend Fallback\nvar (\n\tConvB func(source conv.In) conv.Out\n)\n\nfunc Fallback(s int) string { return \"\" }\n"),
+			"fn/fn.go":     pk("fn", "import \"vx/conv\"\n\n// goverter:converter\n// goverter:output:format function\n// goverter:extend vx/conv:.*Name\n// goverter:extend Fallback\ntype F interface {\n\tConvF(source conv.In) conv.Out\n}\n\nfunc Fallback(s int) string { return \"\" }\n"),
+		}, []string{"./conv", "./api", "./fn"}},
 		{"ambiguous-fields-and-missing", map[string]string{"a/a.go": pk("a", "type In struct{ NAME string; NaMe string; nAME string; X int }\ntype Out struct{ Name string; Y int; Z int }\n\n// goverter:converter\n// goverter:matchIgnoreCase\ntype C interface {\n\tConvert(source In) Out\n}\n")}, []string{"./a"}},
 	}
 	if thorough {
